@@ -185,7 +185,7 @@ func (r *Run) checkRel(ld *Loaded) {
 			retry = append(retry, cases[o.vc.caseIdx])
 		}
 	}
-	if len(retry) > 0 {
+	if len(retry) > 0 && !r.aborted {
 		for _, o := range run(false, retry) {
 			if o.Status == "discharged" {
 				r.Stale = append(r.Stale, o.Name+": discharged only against callee bodies")
